@@ -10,7 +10,8 @@
     flag cleared iff `i` is the last column; no other cell changes.
   * `selective_same` : DECSED / DECSEL are treated identically to ED / EL.
   * unknown modes change nothing: `Vt.C18.ed_unknown_inert`, `el_unknown_inert`.
-  The positional range theorems for ECH / EL 0 / EL 1 (`eraseRange_spec`) are in progress.
+  The positional range theorems for ECH / EL 0 / EL 1 / ED 0 / ED 1 on every well-formed line are in C07b
+  (`erase_range_eq`, `ech_eq`, `el0_eq`, `el1_eq`, `ed0_eq`, `ed1_eq`).
 -/
 import Vt.Lemmas.Inv
 namespace Vt.C07
